@@ -66,7 +66,9 @@ def check_run(ctx, bt, spec):
             if hasattr(n, "stack"):
                 n.stack.algos = (FlagSpy(),) + tuple(n.stack.algos)
         b, data, add = R.build_backtest(bt, spec, strategy=s)
-        b.run()
+        import contextlib, io
+        with contextlib.redirect_stdout(io.StringIO()), contextlib.redirect_stderr(io.StringIO()):
+            b.run()
     except Exception as e:  # noqa
         ctx.count("program-raised:" + E.classify_exc(e))
         return
@@ -272,6 +274,8 @@ def run(ctx, bt):
     n = ctx.scale(120, 2500)
     for _ in range(n):
         spec = gen_spec(ctx.rng)
+        # the loop of Backtest.run has a progress-bar branch of its own on the bankruptcy path
+        spec["progress_bar"] = ctx.rng.random() < 0.3
         ctx.evaluations += 1
         if len(ctx.samples) < 2:
             ctx.sample({"tree": spec["tree"], "lev": spec["lev"], "integer": spec["integer"], "comm": spec["comm"]})
@@ -292,6 +296,7 @@ def run(ctx, bt):
 def search(ctx, bt):
     for _ in range(ctx.scale(600, 4000)):
         spec = gen_spec(ctx.rng)
+        spec["progress_bar"] = ctx.rng.random() < 0.3
         ctx.evaluations += 1
         check_run(ctx, bt, spec)
         if ctx.violations:
